@@ -98,6 +98,12 @@ CLAIMS = {
         'technique': 'Lean 4 proof (mutual induction over trees, invocation counter) + exhaustive fault enumeration as correspondence',
         'design_ref': 'DESIGN.md section 5, C14',
     },
+    'C12': {
+        'text': "Termination: every function of the model is total (Lean accepts fitsFast, fitsSmart, run, PyStr.go, replaceAll, Graph.unfold only with their termination proofs; C02.budget_positive gives the splitter its positive budget). Work: C12.machine_quadratic — for every document, width, ribbon and both strategies the layout machine and all lookaheads it starts cost at most (size + 2)^2 loop iterations, where `size` counts only the larger alternative of every flat_choice (so documents that share a sub-document between alternatives, as all comment printers do, are measured without duplication); fits_linear / fits_smart_linear (one lookahead <= size + 1); Doc.size_normalize (normalisation never exceeds the pre-paid size); string_pieces_linear; build_linear_partial (without commented dict values: at most one printer invocation per node, incl. comments at every level elsewhere); commented_dict_exponential (known finding K3: 2^n invocations). Runtime part (partial): sys.monitoring LINE events inside the package on 19 families + random wrapper recipes at n, 2n, 4n (8n): doubling ratio <= 9, step budget, and steps <= 400 x model cost (printer invocations + actual machine and lookahead iterations computed by the model).",
+        'note': "partial: CPython's step count is tied to the model by measurement (calibrated constant, 4x margin); document size linear in value size is proved for printer invocations only, not yet for the document measure",
+        'technique': 'Lean 4 proof (termination measures; quadratic bound by induction on the machine with a branch-max size measure) + step-count measurement with cost refinement',
+        'design_ref': 'DESIGN.md section 5, C12',
+    },
     'C04': {
         'text': "Lean theorems C04.sound / sound_plain (the stack machine's output is a rendering of the document in the reference semantics Lay, for every document, width, ribbon and both strategies), ann_balanced (push/pop well bracketed), render_trim (the renderer only trims trailing whitespace), with lay_normalize (Lay closed under normalisation). The model is tied to /repo by exact comparison of SDoc streams and rendered text on all documents <= 4 (thorough: 5) nodes x 96 configurations plus seeded random documents. The forcing clause for bare hardline is known finding K1.",
         'note': "trusted: Lean kernel; model = code only on the explored inputs; ribbon fractions restricted to float-exact ones; FlatChoice lazy normalisation modelled as a pure function",
